@@ -314,7 +314,7 @@ def main():
         ],
         "checks": checks,
         "not_applicable": na,
-        "notes": "See DESIGN.md. Genuine defects found are listed in known_findings.json (fixed: entries name the fix: commit in /repo). Beyond the listed properties the specification also covers nine extensions (./run.py check X01 .. X09, DESIGN.md section 12; evidence/ext/); they are not registered here because the functions they cover are outside the quantifiers of C01-C20.",
+        "notes": "See DESIGN.md. Genuine defects found are listed in known_findings.json (fixed: entries name the fix: commit in /repo). Beyond the listed properties the specification also covers ten extensions (./run.py check X01 .. X10, DESIGN.md section 12; evidence/ext/); they are not registered here because the functions they cover are outside the quantifiers of C01-C20.",
     }
     with open(os.path.join(ROOT, "MANIFEST.json"), "w") as f:
         json.dump(m, f, indent=1)
